@@ -4842,6 +4842,12 @@ class Pack:
         base_type = type
         base_obj = obj
         delta_stack = []
+        # Offsets already on the chain and the REF_DELTA bases followed so
+        # far. With an index that does not belong to the pack, deltas can
+        # name each other in a cycle; coming back to an offset means the
+        # chain has no base.
+        visited_offsets = {offset}
+        ref_bases: list[bytes] = []
         while base_type in DELTA_TYPES:
             prev_offset = base_offset
             if get_ref is None:
@@ -4857,6 +4863,8 @@ class Pack:
                 )
                 assert base_offset is not None
                 base_offset = base_offset - delta_offset
+                if base_offset in visited_offsets:
+                    raise UnresolvedDeltas(ref_bases)
                 base_type, base_obj = self.data.get_object_at(base_offset)
                 assert isinstance(base_type, int)
             elif base_type == REF_DELTA:
@@ -4865,14 +4873,19 @@ class Pack:
                     isinstance(basename, bytes)
                     and len(basename) == self.object_format.oid_length
                 )
+                ref_bases.append(basename)
                 base_offset_temp, base_type, base_obj = get_ref(RawObjectID(basename))
                 assert isinstance(base_type, int)
                 # base_offset_temp can be None for thin packs (external references)
                 base_offset = base_offset_temp
                 if base_offset == prev_offset:  # object is based on itself
                     raise UnresolvedDeltas([basename])
+                if base_offset in visited_offsets:  # longer cycle
+                    raise UnresolvedDeltas(ref_bases)
             else:
                 raise AssertionError(f"Unexpected delta type: {base_type}")
+            if base_offset is not None:
+                visited_offsets.add(base_offset)
             delta_stack.append((prev_offset, base_type, delta))
 
         # Now grab the base object (mustn't be a delta) and apply the
